@@ -63,6 +63,10 @@ EXPLANATION = (
     "R12 the local container that is filled inside the loop over the sources of one input variable (CircuitIR._collect_ops) is "
     "created or cleared on every path from the start of an iteration of the enclosing loop over the operator's input variables "
     "to that source loop (private helpers spliced in), so no input variable inherits the sources of an earlier one.  "
+    "R13 every test against a declared absolute tolerance of the edge-equation generator (a parameter with a small float "
+    "default, followed into the helpers it is handed to) — the tests that decide to leave a weight factor out of the emitted "
+    "term — is an absolute comparison |x - c| < tol; np.allclose / np.isclose / math.isclose are accepted only with an "
+    "explicit zero relative tolerance and the declared tolerance as absolute one.  "
     "R4, R7, R3 and R10 look at functions with their private helpers spliced in (engine.inline) whenever the construct and its "
     "guard may have been put into different functions; a construct is then judged at every call site.  "
     "R5 (state layout loops) is implemented as C12-R2 in rules/c12.py and registered here when that module provides it.  "
